@@ -108,10 +108,27 @@ def classify(case, fails=None):
     return "list-verdict-differs-from-per-rule-evaluation"
 
 
+FORWARDER = {}
+
+
+def forwarder_binary(ctx):
+    """the real binary built from the source tree (end-to-end cases); None when it does not build"""
+    if "bin" not in FORWARDER:
+        fwd = os.path.join(ctx.work, "forwarder")
+        rc, blog = common.sh([common.go_cmd(), "build", "-o", fwd, "./cmd/forwarder"], cwd=ctx.repo,
+                             env=common.go_env(), timeout=900)
+        FORWARDER["bin"] = fwd if rc == 0 else None
+        FORWARDER["log"] = blog
+    return FORWARDER["bin"]
+
+
 def run_harness(ctx, hb, workdir, replay_obj=None):
     """run the harness into workdir and evaluate its shards. returns (meta, res, error)"""
     os.makedirs(workdir, exist_ok=True)
     args = [hb, "-seed", str(ctx.seed), "-tier", ctx.tier, "-out", workdir]
+    fwd = forwarder_binary(ctx)
+    if fwd and (replay_obj is None or replay_obj.get("kind") == "e2e"):
+        args += ["-forwarder", fwd]
     if replay_obj is not None:
         inner = os.path.join(workdir, "replay_in.json")
         json.dump(replay_obj, open(inner, "w"))
@@ -202,7 +219,7 @@ def run(ctx):
 
     hb, hlog = ctx.build_harness(HARNESS)
     meta, res = {}, {}
-    bad = {"rule": {"M": [], "P": [], "U": []}, "list": {"M": [], "P": [], "U": []}}
+    bad = {k: {"M": [], "P": [], "U": []} for k in ("rule", "list", "e2e")}
     if hb is None:
         ob_failed.append("harness does not build against the source tree: " + hlog[-800:])
     else:
@@ -220,10 +237,15 @@ def run(ctx):
             for shard, lg in res["_errors"]:
                 ob_failed.append("correspondence shard %s did not evaluate: %s" % (shard, lg[-600:]))
             src = {"rule": load_jsonl(os.path.join(ctx.work, "rcases.jsonl")),
-                   "list": load_jsonl(os.path.join(ctx.work, "lcases.jsonl"))}
+                   "list": load_jsonl(os.path.join(ctx.work, "lcases.jsonl")),
+                   "e2e": load_jsonl(os.path.join(ctx.work, "ucases.jsonl"))}
+            if forwarder_binary(ctx) is None:
+                ob_failed.append("forwarder binary does not build: " + FORWARDER.get("log", "")[-600:])
+            if meta.get("e2e_error"):
+                ob_failed.append("end-to-end run failed: " + meta["e2e_error"])
             for shard in meta["shards"]:
                 r = res.get(shard) or {}
-                kind = "rule" if shard.startswith("rcases") else "list"
+                kind = {"rcases": "rule", "lcases": "list", "ucases": "e2e"}[shard.split("_")[0]]
                 base = int(shard.split("_")[1].split(".")[0]) * meta["shard_size"]
                 for ident in ("M", "P", "U"):
                     for i in (ctx.parse_nlist(r.get(ident)) or []):
@@ -269,6 +291,19 @@ def run(ctx):
                            unchecked="correspondence model(g17 match_entries)/implementation (ruleset.RegexpMatcher)"),
                       False, "%d rule lists on which model and implementation differ although the property predicate holds; smallest: %s"
                       % (len(bad["list"]["M"]), list_texts(c)))
+    # the real binary: denied / forwarded per target vs per-rule evaluation on the bare host name
+    if bad["e2e"]["P"]:
+        c = smallest(bad["e2e"]["P"])
+        ctx.violation("e2e-deny-domains-verdict-differs-from-per-rule-evaluation",
+                      dict(c, kind="e2e", texts=list_texts(c)), True,
+                      "%d --deny-domains lists for which the real binary denies/forwards a target differently from per-rule "
+                      "evaluation by Go's regexp on the bare host name; smallest: %s targets %s"
+                      % (len(bad["e2e"]["P"]), list_texts(c), json.dumps([t.get("authority") for t in c.get("targets", [])])[:300]))
+    elif bad["e2e"]["M"]:
+        c = smallest(bad["e2e"]["M"])
+        ctx.violation("e2e-correspondence", dict(c, kind="e2e", texts=list_texts(c),
+                                                 unchecked="correspondence model(g17 match_entries on the bare host)/real binary"),
+                      False, "%d --deny-domains lists; smallest: %s" % (len(bad["e2e"]["M"]), list_texts(c)))
     if ob_failed and not ctx.violations and not ctx.known_hits:
         ctx.violation("obligation-unchecked", dict(unchecked=ob_failed), False, ob_failed[0][:300])
     elif ob_failed:
@@ -294,8 +329,11 @@ def run(ctx):
                 "hosts derived from the rule's own literals (case variants, embedded newlines); stream 2: corpus + generated lists of 1..6 "
                 "rules (30% excludes; inline flags at start/middle/end, anchors, alternations, groups, classes, quotes) through "
                 "ParseRegexpListItem/NewRegexpMatcherFromList/Match/Inverse, a random permutation of the same list, and Go's regexp on each rule alone; "
+                "stream 3: the real binary started with --deny-domains lists (incl. the same pattern as include and exclude), requests and CONNECTs for names, "
+                "case variants, trailing dot, IPv4/IPv6 literals with and without port: denied (403) or forwarded to a scripted upstream (200); "
                 "non-trivial = lists with both a matching and a non-matching host + single rules Go compiled",
-        "traces_validated_against_impl": int(meta.get("rule_cases", 0)) + int(meta.get("list_cases", 0)),
+        "traces_validated_against_impl": int(meta.get("rule_cases", 0)) + int(meta.get("list_cases", 0)) + int(meta.get("e2e_cases", 0)),
+        "e2e_real_binary": {"lists": meta.get("e2e_cases"), "probes": meta.get("e2e_probes")},
         "model_mismatches": len(bad["rule"]["M"]) + len(bad["list"]["M"]),
         "property_failures_on_impl": len(bad["list"]["P"]),
         "cases_outside_the_model": {"rule": len(bad["rule"]["U"]), "list": len(bad["list"]["U"]),
